@@ -1028,3 +1028,29 @@ Theorem C03_its_list_synrule_object_backward : forall (implicit_temp : bool) (in
 Proof. exact its_list_synrule_object_backward. Qed.
 Print Assumptions C03_its_list_synrule_object_backward.
 
+(** the template-side hypotheses as ONE boolean of the template as written ([default_tpl_okb], proof/C03_ReactorSpec.v:
+    well formed, closed bonds, same element on both sides, and the template condition in decidable form) — evaluated on every
+    correspondence case by the model and, independently, by the harness (evidence: to how many templates the end-to-end
+    theorems apply) *)
+Theorem C03_default_tpl_okb_sound : forall tpl : its, default_tpl_okb tpl = true ->
+  (forall (k : N) (a : inode), In (k, a) (gnodes tpl) -> a_el (iH a) = a_el (iG a)) /\
+  wf_rcb tpl = true /\ edges_closedb tpl = true /\ tpl_condition tpl.
+Proof. exact default_tpl_okb_sound. Qed.
+Print Assumptions C03_default_tpl_okb_sound.
+
+(** the property END TO END in the default mode, forwards and backwards, every hypothesis a boolean that the correspondence
+    evaluates: the template ([default_tpl_okb], on the template as written), the substrate ([wf_hostb]), the matcher's
+    contract ([call_okm]) *)
+Theorem C03_its_list_default_bool : forall (invert : bool) (inp : rin) (tpl rc : its) (l r : molg) (gs : list its),
+  default_tpl_okb tpl = true ->
+  i_rule inp = synrule (if invert then invert_template tpl else tpl) true ->
+  synrule (if invert then invert_template tpl else tpl) true = Some (rc, l, r) ->
+  wf_hostb (i_host inp) = true -> forallb (call_okm (i_host inp) l) (i_calls inp) = true ->
+  spec_its inp = Some gs ->
+  forall g : its, In g gs ->
+    instance_of (i_host inp) rc g /\
+    (forall e : N, elem_count e (fst (its_decompose g)) = elem_count e (snd (its_decompose g))) /\
+    total_charge (fst (its_decompose g)) = total_charge (snd (its_decompose g)).
+Proof. exact its_list_default_bool. Qed.
+Print Assumptions C03_its_list_default_bool.
+
